@@ -69,3 +69,6 @@ N("c16-n-exactly-inline-remaining", "C16", BUF, RX, "chunk = await self.receive_
 # from seeded changes C16/c and C16/d (round 2)
 M("c16-text-encoder-reset-on-error", "C16", TXT, "TextSendStream.send", "        encoded = self._encoder.encode(item)", "        try:\n            encoded = self._encoder.encode(item)\n        except UnicodeError:\n            self._encoder.reset()\n            raise", ["R16-d"])
 M("c16-receive-checkpoint-after-consume", "C16", BUF, RC, "            del self._buffer[:max_bytes]\n            return chunk", "            del self._buffer[:max_bytes]\n            await self.receive_stream.aclose() if False else None\n            return chunk", ["R16-a"])
+
+# from seeded change C16/f (round 3)
+M("c16-exactly-chunk-bypasses-buffer", "C16", BUF, RX, "            self._buffer.extend(chunk)", "            if len(chunk) == nbytes:\n                return bytes(chunk)\n\n            self._buffer.extend(chunk)", ["R16-b"])
